@@ -1612,11 +1612,11 @@ func TestCheck(t *testing.T) {
 	}
 	r.Note("big_writes", "additional family: both sides perform single application writes of 32767..200003 bytes (not multiples of 32 KiB / 64 KiB) between small writes, under all-available / PRNG / 4 KiB-window chunking; counted as big_write_connections")
 	// several client connections alive at once (interleave_test.go)
-	r.Note("interleaved_connections", "additional family (mon.Interleave): 3 ScrambleSuit client connections of one factory alive at once in one bubble (UniformDH and ticket handshakes, half of them given a ticket and a PRNG seed behind the response), driven round-robin from one goroutine: all endpoints write, then read in pieces of 1..24 bytes, one Read per endpoint per round, write again, drain; own PRF stream per direction")
-	for g := 0; g < r.Pick(8, 120); g++ {
+	r.Note("interleaved_connections", "additional family (mon.Interleave): 3 ScrambleSuit client connections of one factory alive at once in one bubble (UniformDH and ticket handshakes, half of them given a ticket and a PRNG seed behind the response), driven round-robin from one goroutine: all endpoints write, then read in pieces of 1..24 bytes, one Read per endpoint per round, write again, drain; own PRF stream per direction; every third group instead with a writer and a reader goroutine per endpoint on all processors at once (mon.Parallel)")
+	for g := 0; g < r.Pick(12, 150); g++ {
 		g := g
 		r.Bubble(fmt.Sprintf("interleaved-connections/%03d", g), func(c *mon.Case) {
-			safely(c, "interleaved", func() { interleavedConns(c, r, base, 3, r.Sub("il", g)) })
+			safely(c, "interleaved", func() { interleavedConns(c, r, base, 3, r.Sub("il", g), g%3 == 2) })
 		})
 	}
 	// the epoch hour changes while the handshake is in flight (the server's
